@@ -282,7 +282,21 @@ def proj_all(t):
     return out
 
 
-PROJ = {"returns": proj_returns, "polls": proj_polls, "wakes": proj_wakes, "own": proj_own, "all": proj_all}
+def _nv(x):
+    """a result without its payload: which values a poll returned is the business of C04-C12, not of the wake-up / poll-discipline properties"""
+    return x[:3] if x.startswith("E:") else x
+
+
+def proj_polls_nv(t):
+    return [_nv(x) for x in proj_polls(t)]
+
+
+def proj_wakes_nv(t):
+    return [_nv(x) for x in proj_wakes(t)]
+
+
+PROJ = {"returns": proj_returns, "polls": proj_polls, "wakes": proj_wakes, "own": proj_own, "all": proj_all,
+        "polls-nv": proj_polls_nv, "wakes-nv": proj_wakes_nv}
 
 # ================================================================================================ properties
 SCAN4 = ["join", "try_join", "merge", "zip"]
@@ -315,7 +329,7 @@ def suites_for(pid, rng, tier):
         fixed("wake", CFG3, SCAN4 + ["race", "race_ok", "chain"])
         groups("wake-groups", ("std", "alloc"), FG + SG, ks)
         S.append(("wake-wait", "std", "scan", gen.gen_wait(rng, ks // 2, "w")))
-        return "wakes", S
+        return "wakes-nv", S
     if pid == "C02":
         fixed("own", CFG3, SCAN4 + ["race", "race_ok", "chain"], panic=0.08)
         groups("own-groups", ("std", "alloc"), FG + SG, ks)
@@ -326,7 +340,7 @@ def suites_for(pid, rng, tier):
         fixed("disc", CFG3, SCAN4 + ["race", "race_ok", "chain"])
         groups("disc-groups", ("std", "alloc"), FG + SG, ks)
         S.append(("disc-wait", "alloc", "scan", gen.gen_wait(rng, ks // 2, "w")))
-        return "polls", S
+        return "polls-nv", S
     if pid == "C04":
         fixed("join", CFG3, ["join"])
         small("join", ("std", "nostd"), "join")
@@ -372,7 +386,7 @@ def suites_for(pid, rng, tier):
         groups("selective-groups", ("std",), FG + SG, k)
         small("selective-join", ("std",), "join")
         small("selective-merge", ("std",), "merge")
-        return "polls", S
+        return "polls-nv", S
     if pid == "C17":
         for c in CFG3:
             S.append(("fair", c, "scan", gen.gen_fair(rng, c, k, "f" + c[0])))
@@ -386,7 +400,7 @@ def suites_for(pid, rng, tier):
             S.append(("conc", c, "scan", gen.gen_never(rng, c, SCAN4 + ["race", "race_ok"], k, "n" + c[0])))
         fixed("conc-mixed", ("std", "alloc"), SCAN4, ks)
         groups("conc-groups", ("std", "alloc"), FG + SG, ks)
-        return "polls", S
+        return "polls-nv", S
     if pid in ("C13", "C14", "C15"):
         terms = {"C13": ("fe",), "C14": ("tfe", "rcol", "rcol"), "C15": ("fe", "tfe", "col", "rcol")}[pid]
         S.append(("costream", "std", "co", gen.gen_co(rng, 2 * k, "k", terms=terms)))
